@@ -71,6 +71,7 @@ func wireValueCases(c *Ctx) []json.RawMessage {
 		lens = append(lens, n)
 	}
 	lens = append(lens, 100, 1000, 12288, 16380, 16384, 65531, 65532, 65535, 65536, 65540, 70000)
+	lens = append(lens, 1<<17, 1<<17+1, 1<<20-1, 1<<20, 1<<20+1, 1<<20+70000, 3<<20+5) // beyond every size class / chunk size a reader may use
 	for i, n := range lens {
 		for _, k := range []string{"string", "binary"} {
 			add(WireCase{Kind: k, SLen: n, SSeed: (i*7 + 3) % 250, Trail: tr()})
@@ -134,6 +135,10 @@ func msgCases(c *Ctx) []json.RawMessage {
 		for _, n := range []int{0, 1, 2, 13, 100, 4084, 4085, 4086, 4087, 4088, 4096, 8192, 65536, 70000} {
 			add(WireCase{Kind: "msgbegin", Mt: mt, SLen: n, SSeed: (n + mt) % 250, Seq: seqs[rng.Intn(len(seqs))], Trail: rng.Intn(3)})
 		}
+	}
+	// names beyond every size class / chunk size a reader may treat specially
+	for i, n := range []int{1 << 17, 1<<17 + 1, 1<<20 - 1, 1 << 20, 1<<20 + 1, 1<<20 + 70000, 2<<20 + 1, 3<<20 + 5} {
+		add(WireCase{Kind: "msgbegin", Mt: 1 + i%4, SLen: n, SSeed: (n + i) % 250, Seq: seqs[i%len(seqs)], Trail: i % 3})
 	}
 	for i := 0; i < c.Pick(200, 4000); i++ {
 		n := rng.Intn(10)
